@@ -555,7 +555,35 @@ def execute(case):
                         if tuple(xd.shape) != tuple(case['shapes'][i]):
                             V('shape', feats, f'block {k!r}: shape {tuple(xd.shape)} expected {case["shapes"][i]}')
                         got[off[i]:off[i + 1]] = xd.reshape(-1).numpy()
-                compare(sem, got, want, feats + (['transpose'] if tr else []), f'A={Aeff.tolist()} b={bfull.tolist()} shapes={case["shapes"]}')
+                try:
+                    compare(sem, got, want, feats + (['transpose'] if tr else []), f'A={Aeff.tolist()} b={bfull.tolist()} shapes={case["shapes"]}')
+                except Violation as v0:
+                    # open finding C09-lu-rounding-into-divergent-block: with torch.linalg.solve (LU, partial pivoting) a solution
+                    # component that is structurally zero comes out as ~1e-16 and a divergent block downstream turns it into inf.
+                    # Operational test: the same call with every linalg.solve failing (Gauss-Jordan fallback) gives the reference
+                    # answer, and the only disagreement of the LU run is inf where the reference is finite
+                    lab = None
+                    if sem == 'real' and case['api'] == 'multi_solve' and not case.get('linalg_fail'):
+                        gotn, wantn = np.asarray(got), np.asarray(want)
+                        okn = (gotn == wantn) | (np.isfinite(gotn) & np.isfinite(wantn) & (np.abs(gotn - wantn) <= 1e-6 * np.maximum(1.0, np.abs(wantn))))
+                        if bool(np.all(okn | (np.isposinf(gotn) & np.isfinite(wantn)))):
+                            with Env({'linalg_fail': ['all'], 'dtype': 'float64'}):
+                                with recorded_warnings():
+                                    try:
+                                        x2 = MU.multi_solve(a, bm, transpose=tr)
+                                    except Exception:
+                                        x2 = None
+                            if x2 is not None:
+                                got2 = np.array(lift_np(sem, np.zeros(N)))
+                                for i_, k_ in enumerate(keys):
+                                    if k_ in x2:
+                                        got2[off[i_]:off[i_ + 1]] = x2[k_].to_dense().reshape(-1).numpy()
+                                ok2 = (got2 == wantn) | (np.isfinite(got2) & np.isfinite(wantn) & (np.abs(got2 - wantn) <= 1e-6 * np.maximum(1.0, np.abs(wantn))))
+                                if bool(np.all(ok2)):
+                                    lab = 'lu-rounding-into-divergent-block'
+                    if lab is None:
+                        raise
+                    raise Violation('C09', 'least-solution', [lab] + feats + (['transpose'] if tr else []), v0.detail if hasattr(v0, 'detail') else str(v0))
                 if case['seed'] % 3 == 0 and seen:
                     # history on the same MultiTensor: one block is overwritten in place (copy_) by a block of another
                     # pattern -- diagonal <-> dense -- and the same operation is asked again
